@@ -55,6 +55,7 @@ EXPIRIES = EXPIRIES + list(SPELLED)
 KUNIV = [1, 2, 3, 4, 'x', 'y', None, 2.0, 5.0, D(2020, 1, 1)]
 JUNIV = ['u', 'v', 1]
 VALS = [0, 1, 2, 7, 'p', 'q', None, 0.5, 2.5]
+ARG_NAMES = ['self', 'self', 'function', 'on', 'key', 'col', 'columns']
 
 
 def ckey(v):
@@ -140,6 +141,10 @@ def gen_case(rng, full=False):
         return gen_inner_two_keys(rng)
     on = ['k'] if rng.random() < 0.6 else ['k', 'j']
     params = ['a', 'b', 'c', 'd'][:rng.choice([1, 2, 2, 3, 4])]
+    odd_name = rng.random() < 0.12
+    if odd_name:
+        # a parameter of f called like a parameter of the machinery (review v2 W3; C16 has ARG_KEYS): bound by keyword all the way down
+        params[rng.randrange(len(params))] = rng.choice(ARG_NAMES)
     base = rand_keys(rng, on, None)
     inputs, kinds = [], []
     all_scalar = rng.random() < 0.08
@@ -200,6 +205,8 @@ def gen_case(rng, full=False):
         tag += '+keyless-table'             # a table input without any key column: cross join
     if defaults:
         tag += '+defaults'
+    if odd_name:
+        tag += '+param-named-' + [q for q in params if q in ARG_NAMES][0]
     if renames:
         tag += '+renames'
     if_none = has_table and rng.random() < 0.15
@@ -311,6 +318,9 @@ def compare(case, i, line, ir, mr):
         return ('divergence', 'model does not cover this call (impl: %s)' % ir[:100])
     if proto.same_reply(ir, mr):
         return None
+    if len(proto.parse(line)[2]) == 1:
+        # f() without a parameter: outside the quantifier (1..4 inputs) - only the shrinker arrives here
+        return ('divergence', 'a call without any input: implementation %s, model %s' % (ir[:80], mr[:80]))
     if ir.startswith('err') and mr.startswith('ok'):
         return 'the call raised (%s) where the statement prescribes a result (model: %s)' % (ir, mr[:150])
     if not (ir.startswith('ok') and mr.startswith('ok')):
